@@ -11,7 +11,7 @@ LEVEL = "exploration"
 MANIFEST = dict(
     engine="E6-fluentshadow", engine_path="vlib/fluentshadow.py",
     kind="generated corpora of fluent programs over shared sources; name->computation descriptor map, determinism re-build, operand snapshots around every operation",
-    technique="runtime monitoring of the real fluent API: (1) over the union of 2-6 generated actions a map name -> (callable object, static args by value, input names) must be a function (two descriptors under one name = violation), then Cascade.from_actions/serialise/graph2job must keep every computation; (2) the same program built twice must give identical name arrays; (3) (dims, coords, names, attrs) of every live action are snapshotted before and compared after every operation, including binary operations whose operands carry different coordinate values and the size-1 no-op paths",
+    technique="runtime monitoring of the real fluent API: (1) over the union of 2-6 generated actions a map name -> (callable object, static args by value, input names) must be a function (two descriptors under one name = violation), then Cascade.from_actions/serialise/graph2job must keep every computation; (2) the same program built twice must give identical name arrays, in the same process and again in a fresh interpreter (names must not depend on what the process built before); (3) (dims, coords, names, attrs) of every live action are snapshotted before and compared after every operation, including binary operations whose operands carry different coordinate values and the size-1 no-op paths",
     text="Held = no name was shared by two different computations in any corpus, every rebuilt program had identical names, no snapshot of an earlier action changed after any later operation.",
     note="callable identity = the callable object (functools.partial: func+args+keywords); static arrays are compared by bytes; consequences (serialise assertion, lost tasks) are only checked for corpora whose names are injective.",
 )
@@ -22,7 +22,7 @@ RULE = (
     "distinct = digest(callable classes, op classes)"
 )
 ASSUMPTIONS = ["two nodes denote the same computation iff same callable object, equal static args/kwargs and inputs with equal names (induction over the DAG)"]
-REQUIRED_COUNTERS = ["corpora", "names_checked", "determinism_checks", "immutability_probes", "binary_ops_with_different_coords", "consequence_checks"]
+REQUIRED_COUNTERS = ["corpora", "names_checked", "determinism_checks", "fresh_interpreter_rebuilds", "immutability_probes", "binary_ops_with_different_coords", "consequence_checks"]
 
 
 def plus(x, c=1):
@@ -86,7 +86,7 @@ def callable_class(desc_a, node_a, node_b):
     return "inputs-differ"
 
 
-def one_corpus(col: Collector, rng, index: int):
+def one_corpus(col: Collector, rng, index: int, names_out: list | None = None):
     import numpy as np
     from earthkit.workflows import Cascade, fluent
     from earthkit.workflows.graph import serialise
@@ -233,6 +233,8 @@ def one_corpus(col: Collector, rng, index: int):
             col.case(shape=digest(classes), nontrivial=True)
             return
         actions.append((a, seq))
+    if names_out is not None:
+        names_out.extend([list(snapshot(a)[3]), [o["label"] for o in seq]] for a, seq in actions)
     col.count("corpora")
     col.count("immutability_probes", probes[0])
     col.case(shape=digest(sorted(classes)), nontrivial=len(actions) >= 2 and all(len(c) >= 1 for c in classes),
@@ -304,15 +306,66 @@ def run_shard(spec, col: Collector):
     import warnings
     warnings.simplefilter("ignore")
     seed, shard = spec["seed"], spec["shard"]
+    recorded: dict[int, list] = {}
     for i in range(spec["n"]):
         if col.out_of_time():
             break
         if col.want(i):
-            guarded(col, i, one_corpus, col, case_rng(seed, shard, i), i)
+            names: list = []
+            guarded(col, i, one_corpus, col, case_rng(seed, shard, i), i, names)
+            if names:
+                recorded[i] = names
+    if spec.get("only") is not None or not recorded:
+        return
+    # ---- names must not depend on what this process built before: rebuild some corpora in a fresh interpreter ----------
+    import json
+    import os
+    import subprocess
+    from vlib.common.driver import PY, child_env
+    api_ops = ("expand", "stack", "concatenate", "flatten", "reduce", "transform", "broadcast", "join")
+    late = sorted(recorded)[len(recorded) // 3:]      # corpora built after the process had a history
+    pref = [i for i in late if any(any(lbl.startswith(api_ops) for lbl in labels) for _n, labels in recorded[i])]
+    chosen = (pref + [i for i in late if i not in pref])[: spec.get("fresh_rebuilds", 3)]
+    for i in chosen:
+        try:
+            out = subprocess.run([PY, "-m", "vlib.checks.c14", str(seed), shard, str(i)], env=child_env(spec.get("hash_seed")), capture_output=True, text=True, timeout=120,
+                                 cwd=os.path.dirname(os.path.dirname(os.path.dirname(os.path.abspath(__file__)))))
+            line = [ln for ln in out.stdout.splitlines() if ln.startswith("NAMES ")]
+            fresh = json.loads(line[-1][6:])
+        except Exception:  # noqa: BLE001
+            col.observe("fresh_interpreter_rebuild_failed")
+            continue
+        col.count("fresh_interpreter_rebuilds")
+        here = [[list(n), list(lbl)] for n, lbl in recorded[i]]
+        if [lbl for _n, lbl in here] != [lbl for _n, lbl in fresh]:
+            col.observe("fresh_interpreter_rebuild_generated_another_program")   # generator not reproducible: no verdict
+            continue
+        for k, ((n_here, labels), (n_fresh, _l)) in enumerate(zip(here, fresh)):
+            if n_here != n_fresh:
+                col.violation("names-depend-on-process-history", f"program {labels} got other node names in a fresh interpreter than after {i} earlier corpora in this process "
+                              f"(first difference: {next((a, b) for a, b in zip(n_here, n_fresh) if a != b)!r:.160})", {"ops": labels, "corpus": i}, i)
+                break
+
+
+def _fresh_main():
+    """python -m vlib.checks.c14 <seed> <shard> <index>: rebuild one corpus in a fresh interpreter, print its node names."""
+    import json
+    import sys
+    import warnings
+    warnings.simplefilter("ignore")
+    seed, shard, i = int(sys.argv[1]), sys.argv[2], int(sys.argv[3])
+    col = Collector("C14", {"shard": shard, "seed": seed, "tier": "quick", "n": 0})
+    names: list = []
+    one_corpus(col, case_rng(seed, shard, i), i, names)
+    sys.stdout.write("NAMES " + json.dumps(names) + "\n")
 
 
 def plan(tier, seed, scale=1.0):
     q = tier == "quick"
     n, copies = (60, 8) if q else (1200, 16)
-    return [dict(shard=f"n{c}", n=int(n * scale), budget_s=60 if q else 900, timeout_s=180 if q else 1500,
+    return [dict(shard=f"n{c}", n=int(n * scale), budget_s=60 if q else 900, timeout_s=240 if q else 1800, fresh_rebuilds=3 if q else 12,
                  hash_seed=(seed * 47 + c) % 4294967295) for c in range(copies)]
+
+
+if __name__ == "__main__":
+    _fresh_main()
